@@ -3,6 +3,7 @@ import Rangers.Basic.Line
 import Rangers.Basic.Keccak
 import Rangers.Model.TrieMachine
 import Rangers.Model.TrieIter
+import Rangers.Model.TrieNdb
 /-
 C02 line-protocol driver.  State = the live trie model (`Trie.LTrie`: nodes with cache flags,
 hash nodes, cache generation / limit, node database); every trie operation goes through
@@ -44,6 +45,7 @@ def parseOp (line : String) : Option Op :=
 structure DState where
   cur : LTrie
   snaps : List LTrie
+  ndb : NDb := NDb.empty      -- the two-layer NodeDatabase (`Model/TrieNdb`), fed by every `Trie.Commit`
 
 def showGet : Option (Option Bytes × LTrie) → String
   | some (some v, _) => "v=" ++ toHex v
@@ -74,12 +76,68 @@ def step1 (t : LTrie) (line : String) : LTrie × String :=
 
 def step (s : DState) (line : String) : DState × String :=
   match splitWords line with
-  | ["new"] => ({ cur := LTrie.empty, snaps := [] }, "ok")
+  | ["new"] => ({ cur := LTrie.empty, snaps := [], ndb := NDb.empty }, "ok")
+  | ["rlpstr", x] =>
+    match ofHex? x with
+    | some x => (s, toHex (rlpString x))
+    | none => (s, "bad-op")
+  | "rlplist" :: xs =>
+    match xs.mapM ofHex? with
+    | some items => (s, toHex (rlpList (items.flatMap rlpString)))
+    | none => (s, "bad-op")
+  | ["rlpsplit", x] =>
+    match ofHex? x with
+    | some x =>
+      match rlpSplit x with
+      | some r =>
+        let kind := match r.1 with | .byte => "byte" | .string => "string" | .list => "list"
+        let cnt := match countValues x.length x with | some n => toString n | none => "count-error"
+        (s, kind ++ " " ++ toHex r.2.1 ++ " " ++ toHex r.2.2 ++ " " ++ cnt)
+      | none => (s, "split-error")
+    | none => (s, "bad-op")
+  | ["opendisk", x] =>
+    match ofHex? x with
+    | some x =>
+      match decodeNode 0 (20 * x.length + 20) (some (H x)) x with
+      | some n => (s, shapeL n ++ " g0")
+      | none => (s, "decode-panic")
+    | none => (s, "bad-op")
+  | ["dbstate"] =>
+    (s, "mem=" ++ keyDigest (s.ndb.mem.map (·.1)) ++ " disk=" ++ keyDigest (s.ndb.disk.map (·.1)))
+  | ["node", h] =>
+    match ofHex? h with
+    | some h => (s, match s.ndb.blob h with | some b => "blob=" ++ toHex b | none => "absent")
+    | none => (s, "bad-op")
+  | ["blob", x] =>
+    match ofHex? x with
+    | some x => ({ s with ndb := s.ndb.insert (H x) (.raw x) }, toHex (H x))
+    | none => (s, "bad-op")
+  | ["commitref"] =>
+    -- `Trie.Commit(onleaf)`: insert, then the leaf callback references 32-byte leaf values
+    let att := commitAttempts H s.cur
+    let r := s.cur.commit H
+    match (s.ndb.insertAll att).onleafAll att with
+    | some ndb => ({ s with cur := r.2, ndb := ndb }, toHex r.1)
+    | none => (s, "model-error")
+  | ["commit"] =>
+    let r := s.cur.commit H
+    ({ s with cur := r.2, ndb := s.ndb.insertAll (commitAttempts H s.cur) }, toHex r.1)
+  | ["reopen"] =>
+    let r := s.cur.reopen H
+    ({ s with cur := r.1, ndb := s.ndb.insertAll (commitAttempts H s.cur) }, showObs r.2)
+  | ["dbcommit"] =>
+    -- `Trie.Commit` + `NodeDatabase.Commit(root)` + `NewTrie(root)` (root decoded from its disk blob)
+    let r := s.cur.reopenDisk H
+    let root := (s.cur.commit H).1
+    ({ s with cur := r.1, ndb := ((s.ndb.insertAll (commitAttempts H s.cur)).commit iterFuel root) }, showObs r.2)
   | ["snap"] =>
     -- keep the current trie value, continue on a reopened one (`Commit` + `NewTrie(root, db)`)
     let r := s.cur.reopen H
     match r.2 with
-    | .root h => ({ cur := r.1, snaps := s.snaps ++ [(s.cur.commit H).2] }, toHex h)
+    | .root h =>
+      let snaps' := s.snaps ++ [(s.cur.commit H).2]
+      let ndb' := s.ndb.insertAll (commitAttempts H s.cur)
+      ({ s with cur := r.1, snaps := snaps', ndb := ndb' }, toHex h)
     | _ => (s, "model-error")
   | ["fork"] => ({ s with snaps := s.snaps ++ [s.cur] }, "ok")     -- a value copy of the trie object
   | ["sget", i, k] =>
@@ -110,5 +168,5 @@ def step (s : DState) (line : String) : DState × String :=
     | none => (s, "bad-op")
   | _ => let r := step1 s.cur line; ({ s with cur := r.1 }, r.2)
 
-def run : IO Unit := runLines { cur := LTrie.empty, snaps := [] } step
+def run : IO Unit := runLines { cur := LTrie.empty, snaps := [], ndb := NDb.empty } step
 end Rangers.Drive.C02
